@@ -52,6 +52,9 @@ P = {
          "slot 0 holds the snapshot's meta and slot 1 the same meta with txid-1 opens at slot 0. Tie: WriteTo with write transactions committed between the chunks of the copy, and CopyFile; byte count, Tx.Size, "
          "metas, dump vs the Spec snapshot of the reader, decoder accounting, Tx.Check.",
          "Truly concurrent writer goroutines are not used (interleaving is at chunk boundaries of the copy); remaps during a backup are avoided (they would wait for the backup's own reader).", "DESIGN.md §8 C14"),
+ "C19": ("The reference verdict is computed by the independent decoder; its accounting part is proved EXACT (sound and complete): it accepts precisely the files in which every id below the mark is reachable once, part "
+         "of the freelist page, or listed free once. Tie: Tx.Check and `bbolt check` (exit status) vs that verdict on consistent files and on a sweep of single structural corruptions, in both directions (no miss, no false alarm).",
+         "Key-order and page-type verdicts of the decoder are exercised, not proved exact. Corrupt files that make the decoder's walk not end within 5 s count as corrupt.", "DESIGN.md §8 C19"),
  "C20": ("Layout: a meta rewritten with freelist=none and a fresh checksum validates and keeps every other field (abandon); with the older meta in both slots Open presents it (revert). Pager: the free list rebuilt "
          "by scanning is exactly free+pending = the unreachable pages (rebuild); the previous version's pages are intact directly after a commit (invariant). Tie: the CLI commands run in process after commits; "
          "output decoded before any Open, then opened; content vs Spec.v (previous version for revert), accounting, Tx.Check, source SHA-256.",
